@@ -80,6 +80,7 @@ def build(case):
         grid = GlobalTrapezoidalGrid(a, b, boundary=case["boundary"])
         op = Integration(f, grid=grid, dim=dim, reference_solution=ref, print_level=drive.Q, log_level=drive.Q)
         sa = SpatiallyAdaptiveSingleDimensions2(a, b, operation=op, version=case["version"], rebalancing=case["rebalancing"],
+                                                margin=case.get("margin", 0.9), rebalancing_safety_factor=case.get("safety", 0.1),
                                                 print_level=drive.Q, log_level=drive.Q)
         err = ErrorCalculatorSingleDimVolumeGuided()
         if case.get("estimator") == "target":
@@ -276,7 +277,8 @@ def _strategy(kind):
             if kind == "dw":
                 c.update(lmin=1, lmax=2, version=draw(st.sampled_from([6, 6, 2, 3, 7, 8])), rebalancing=draw(st.booleans()),
                          boundary=draw(st.booleans()), maxev=draw(st.integers(30, 250 if dim == 2 else 200)),
-                         estimator=draw(st.sampled_from(["library", "library", "target"])), bg=draw(st.sampled_from([0.0, 0.5, 1.5])))
+                         estimator=draw(st.sampled_from(["library", "library", "target"])), bg=draw(st.sampled_from([0.0, 0.5, 1.5])),
+                         margin=draw(st.sampled_from([0.9, 0.9, 0.5, 1.0, 0.0])), safety=draw(st.sampled_from([0.1, 0.1, 0.0, 0.0, 0.3])))
                 if c["estimator"] == "target":
                     c["maxev"] = draw(st.integers(30, 120))     # one interval per step: keep the history short
             elif kind == "cell":
